@@ -96,4 +96,26 @@ PROPS = {
         "assumptions": ["the batch object is its own index (batch_constructor = identity)",
                         "logging (tracing) and alloc::fmt::format are stubbed out"],
     },
+    "C06": {
+        "design_ref": "DESIGN.md §3 C06",
+        "functions_encoded": ["protocol::prss::internal::PrssIndex128::{new,index,TryFrom<u128>,Into<u64>,Into<u128>}", "protocol::context::validator::Malicious::{u_record,w_record,r_share_record,reveal_check_zero_record}"],
+        "bounds": "all 2^32 indices x all usize offsets; all validator batch offsets < 2^28",
+        "outside_claim": "every statement about generated VALUES (AES/HKDF/X25519: pairwise agreement, independence); the debug-only UsedSet; absence of repeated (step, index) draws in whole protocol runs; the DZKP per-batch PRSS ranges (constants local to an async fn)",
+        "assumptions": ["logging (tracing) and alloc::fmt::format are stubbed out"],
+    },
+    "C17": {
+        "design_ref": "DESIGN.md §3 C17",
+        "functions_encoded": ["helpers::transport::stream::input::{RecordsStream<_,_,Single>::poll_next, BufDeque::{read_bytes,try_read,extend,read_infallible}, LengthDelimitedStream::poll_next}"],
+        "bounds": "streams of 0, 4 and 5 symbolic bytes, 2-byte fallible records; all 8 chunkings of the 4-byte stream plus layouts with empty chunks (layouts instantiated, bytes symbolic); source returns Pending at up to 2 solver-chosen polls",
+        "outside_claim": "streams longer than 5 bytes, record sizes other than 2, Batch mode, BufferedBytesStream, process_slice_by_chunks, axum body adapters",
+        "assumptions": ["chunks are Bytes::from_static views of one leaked symbolic buffer (symbolic-length Bytes do not terminate in CBMC)",
+                        "logging (tracing) and alloc::fmt::format are stubbed out"],
+    },
+    "C03": {
+        "design_ref": "DESIGN.md §3 C03",
+        "functions_encoded": ["protocol::context::dzkp_field::{TABLE_U, TABLE_V (LazyLock initialisers), bits_to_table_indices}", "<Fp61BitPrime as DZKPBaseField>::{INVERSE_OF_TWO, MINUS_ONE_HALF, MINUS_TWO}"],
+        "bounds": "all 128 combinations of the six intermediates and the claimed product bit (one query over the real tables); all 2^384 inputs of the index packing with a symbolic bit position",
+        "outside_claim": "recursive proof compression (ProofBatch::generate, BatchToVerify::verify, Lagrange tables, SHA-256 Fiat-Shamir challenges), segment packing into 256-bit blocks and the 256-bit block conversions (bitvec load/store on 256-bit arrays: > 500 s per operation under CBMC), batching across steps - hence NOT the end-to-end 'accepted iff consistent'",
+        "assumptions": ["logging (tracing) and alloc::fmt::format are stubbed out"],
+    },
 }
